@@ -244,6 +244,13 @@ impl Incremental {
         self.store.put(src, hash, blob.as_deref());
     }
 
+    /// Drops the fragment captured for a file whose pass2 is skipped this
+    /// build, so a later warm run analyzes it instead of restoring a file
+    /// nobody has checked.
+    pub fn invalidate(&mut self, src: &Path) {
+        self.store.invalidate(&src.to_string_lossy());
+    }
+
     /// Drains the diagnostics of files restored this build, for the caller to
     /// re-report. Call once, after the restore pass.
     pub fn take_restored_diagnostics(&mut self) -> Vec<CachedDiagnostic> {
